@@ -4,6 +4,9 @@
 //! exit 3: counterexample violates a harness assumption; exit 2: usage.
 use vk::{dispatch_all, ReplaySrc};
 
+#[global_allocator]
+static ALLOC: vk::alloc_track::Tracking = vk::alloc_track::Tracking;
+
 fn main() {
     let args: Vec<String> = std::env::args().collect();
     if args.len() == 2 && args[1] == "--list" {
